@@ -82,6 +82,17 @@ class C16(Property):
                 for d in range(dl):
                     for mode in (["str", "value"] if ln <= 3 else ["str"]):
                         res.append(("exhaustive", "W %s %s | %s" % (mode, " ".join(seq), " ".join(str(7 + i) for i in range(d)))))
+        # deep trees: the event stream is flat, so no nesting depth may be rejected (serde_json's recursion limit of 128
+        # concerns the JSON nesting, which stays constant)
+        import sys
+        sys.setrecursionlimit(max(sys.getrecursionlimit(), 20000))
+        k = 0
+        for depth in ([127, 128, 129, 130, 257, 300] if tier == "quick" else [127, 128, 129, 130, 255, 256, 257, 300, 513, 700]):
+            ev = ["S1"] + ["S%d" % (1 + j % 3) for j in range(depth - 1)] + ["T5:97.34"] + ["F"] * depth
+            for form in FORMS:
+                flags = "".join("1" if (j + k) % 3 == 0 else "0" for j in range(depth))
+                res.append(("corpus", "Z %s %s %s | %s" % (form, MODES[k % 4], " ".join(ev), flags)))
+                k += 1
         rng = Rng(seed + 16)
         nrand = 1200 if tier == "quick" else 24000
         for i in range(nrand):
